@@ -30,7 +30,7 @@ THEOREMS = [f'Gnpy.Fiber.{t}' for t in (
     'exp_alpha_is_db', 'lumped_once', 'createLumped_sorted', 'propagateP_eq', 'loss_budget', 'span_loss_budget',
     'lumped_same_position_failed_before_fix', 'cd_additive', 'latency_additive', 'quadrature_fold', 'quadrature_perm',
     'pmd_quadrature', 'pdl_quadrature', 'path_order_irrelevant', 'fibre_pmd_sq', 'fibre_pdl_unchanged', 'latency_formula',
-    'cd_at_ref')] + [f'Gnpy.Raman.{t}' for t in (
+    'cd_at_ref', 'split_span_invariant')] + [f'Gnpy.Raman.{t}' for t in (
     'euler_zero_cr', 'eulerFactor_bounds', 'perturbative_zero_cr', 'perturbGo_zero_cr', 'perturbative_zero_cr_grid',
     'perturbative_low_power', 'gamma1_bound', 'createLumped_prod', 'euler_budget',
     'counterprop_gain_only_partial', 'gamma1_nonneg')]
@@ -89,8 +89,10 @@ def gen(rng, tier, widen=False):
     k = rng.random()
     if k < 0.42:
         return gen_span(rng, tier, widen)
-    if k < 0.80:
+    if k < 0.74:
         return gen_path(rng, tier, widen)
+    if k < 0.80:
+        return gen_designed(rng, tier)
     if k < 0.90:
         return gen_malformed(rng, tier)
     return gen_raman(rng, tier, widen)
@@ -156,6 +158,28 @@ def gen_path(rng, tier, widen):
     rng.shuffle(order2)
     n = len(comb['f'])
     return {'kind': 'path', 'comb': comb, 'elements': els, 'order2': order2, 'init': _init(rng, n, zero=rng.random() < 0.3)}
+
+
+LIB_FIBRES = {'SSMF': (1.67e-05, 8.3e-11), 'NZDF': (5e-06, 7.2e-11), 'LOF': (2.2e-05, 1.25e-10)}   # dispersion, A_eff
+
+
+def gen_designed(rng, tier):
+    """ROADM - fibres - ROADM given as ONE element per fibre, some longer than the Span max_length (150 km): auto-design
+    cuts them (split_fiber rebuilds the sub-spans from FiberParams.asdict()) and inserts amplifiers; the figures accumulated
+    at the receiver must be those of the ORIGINAL fibres"""
+    k = rng.choice([1, 1, 2, 3, 4])
+    line = []
+    for i in range(k):
+        if i == 0 or rng.random() < 0.6:
+            L = rng.choice([151.0, 150.0, 300.0, 299.9, 420.0, 600.0, round(rng.uniform(151, 600), 3),
+                            round(rng.uniform(151, 330), 1)])
+        else:
+            L = rng.choice([80.0, 20.0, 120.0, 149.9, round(rng.uniform(20, 149), 3)])
+        e = {'length': L, 'variety': rng.choice(list(LIB_FIBRES)), 'loss_coef': rng.choice([0.2, 0.2, 0.22, 0.19, 0.25])}
+        if rng.random() < 0.6:
+            e['pmd_coef'] = rng.choice([0.4e-15, 2.0e-15, 3.1e-15, round(rng.uniform(0.1, 3), 3) * 1e-15])
+        line.append(e)
+    return {'kind': 'designed', 'line': line}
 
 
 def gen_malformed(rng, tier):
@@ -278,7 +302,7 @@ def run(case, drv):
     if case['kind'] == 'raman':
         return run_raman(case, drv)
     with FB.sim_params(SIM_OFF):
-        return {'span': run_span, 'path': run_path, 'malformed': run_span}[case['kind']](case, drv)
+        return {'span': run_span, 'path': run_path, 'malformed': run_span, 'designed': run_designed}[case['kind']](case, drv)
 
 
 def run_span(case, drv):
@@ -538,6 +562,131 @@ def run_path(case, drv):
     return res
 
 
+# ---- designed networks: long fibres cut by auto-design ------------------------------------------------------------------
+
+def _line_topology(fibres):
+    """fibres: list of (uid, length_km, variety, loss_coef, pmd_coef or None)"""
+    els = [nets.trx('trx A'), nets.trx('trx B'), nets.roadm('roadm A'), nets.roadm('roadm B')]
+    cxs = [nets.cx('trx A', 'roadm A'), nets.cx('roadm A', 'trx A'), nets.cx('trx B', 'roadm B'), nets.cx('roadm B', 'trx B')]
+    line = []
+    for uid, L, variety, loss, pmd in fibres:
+        extra = {'loss_coef': loss}
+        if pmd is not None:
+            extra['pmd_coef'] = pmd
+        line.append(nets.fiber(uid, L, variety, **extra))
+    nets.chain(els, cxs, 'roadm A', 'roadm B', line)
+    nets.chain(els, cxs, 'roadm B', 'roadm A', [nets.fiber('back', 80.0)])
+    return {'elements': els, 'connections': cxs}
+
+
+def _design_and_propagate(topology):
+    from gnpy.tools.json_io import network_from_json
+    from gnpy.tools.worker_utils import designed_network
+    from gnpy.topology.request import compute_constrained_path, propagate
+    eq = nets.eqpt()
+    net = network_from_json(topology, eq)
+    net, req, _ = designed_network(eq, net, source='trx A', destination='trx B')
+    path = compute_constrained_path(net, req)
+    si = propagate(path, req, eq)
+    return path, si
+
+
+def run_designed(case, drv):
+    from gnpy.core.elements import Fiber, Edfa, Roadm
+    res = Result()
+    line = case['line']
+    orig = [(f'f{i}', e['length'], e['variety'], e['loss_coef'], e.get('pmd_coef')) for i, e in enumerate(line)]
+    path, si = _design_and_propagate(_line_topology(orig))
+    freq = [float(x) for x in si.frequency]
+    nch = len(freq)
+    got = _acc(si)
+    # the fibre description as FiberParams sees it (library values of the variety + the element's own)
+    def params(e, length_m):
+        d, a = LIB_FIBRES[e['variety']]
+        return {'length': length_m, 'length_units': 'm', 'loss_coef': e['loss_coef'], 'dispersion': d, 'effective_area': a,
+                'pmd_coef': e.get('pmd_coef', 1.265e-15), 'con_in': 0, 'con_out': 0}
+    # ---- structure: the sub-spans of every original fibre add up to its length
+    subs = {f'f{i}': [] for i in range(len(line))}
+    for el in path:
+        if isinstance(el, Fiber):
+            subs[el.uid.split('_(')[0]].append(el)
+    nsplit = 0
+    for i, e in enumerate(line):
+        lengths = [el.params.length for el in subs[f'f{i}']]
+        if abs(sum(lengths) - e['length'] * 1e3) > 1e-9 * e['length'] * 1e3:
+            res.fail(f'split: fibre f{i} of {e["length"]} km became spans of {lengths} m')
+        if len(lengths) > 1:
+            nsplit += 1
+        for el in subs[f'f{i}']:
+            if abs(el.params.pmd_coef - e.get('pmd_coef', 1.265e-15)) > 1e-24:
+                res.fail(f'split: span {el.uid} has pmd_coef {el.params.pmd_coef}, the fibre {e.get("pmd_coef", 1.265e-15)}')
+    # ---- correspondence: the path as crossed vs accPath of the model
+    mels = []
+    amp_pmd2 = amp_pdl2 = 0.0
+    for idx, el in enumerate(path):
+        if isinstance(el, Fiber):
+            i = int(el.uid.split('_(')[0][1:])
+            n = len(subs[f'f{i}'])
+            mels.append(dict(kind='fiber', **_span_json(params(line[i], line[i]['length'] * 1e3 / n))))
+        elif isinstance(el, Edfa):
+            mels.append({'kind': 'lumped', 'pmd': fl([el.params.pmd] * nch), 'pdl': fl([el.params.pdl] * nch)})
+            amp_pmd2 += el.params.pmd ** 2
+            amp_pdl2 += el.params.pdl ** 2
+        elif isinstance(el, Roadm):
+            pm = el.get_impairment('roadm-pmd', si.frequency, path[idx - 1].uid, path[idx + 1].uid)
+            pd = el.get_impairment('roadm-pdl', si.frequency, path[idx - 1].uid, path[idx + 1].uid)
+            mels.append({'kind': 'lumped', 'pmd': fl(np.broadcast_to(pm, (nch,))), 'pdl': fl(np.broadcast_to(pd, (nch,)))})
+            amp_pmd2 += float(np.max(pm)) ** 2
+            amp_pdl2 += float(np.max(pd)) ** 2
+    zero = _init(None, nch, zero=True)
+    m = drv.ask('c05.path', elements=mels, f=fl(freq), init=_init_json(zero))
+    _cmp_acc(res, 'designed path (receiver)', got, m)
+    # ---- monitor: the ORIGINAL fibres, own arithmetic
+    lat = sum(e['length'] * 1e3 * FB.N1 / FB.C for e in line)
+    pmd = math.sqrt(sum(e.get('pmd_coef', 1.265e-15) ** 2 * e['length'] * 1e3 for e in line) + amp_pmd2)
+    pdl = math.sqrt(amp_pdl2)
+    for c in (0, nch // 2, nch - 1):
+        cd = sum(FB.cd_ref(params(e, e['length'] * 1e3), freq[c], e['length'] * 1e3) for e in line)
+        if abs(got['latency'][c] - lat) > 1e-9 * lat:
+            res.fail(f'latency additive: receiver sees {got["latency"][c]!r} s, sum over the fibres of length x n1 / c = {lat!r} s '
+                     f'(fibres {[e["length"] for e in line]} km, cut into {[len(subs[k]) for k in subs]} spans)')
+            break
+        if abs(got['cd'][c] - cd) > 1e-9 * abs(cd):
+            res.fail(f'CD additive: receiver sees {got["cd"][c]!r} s/m, sum over the fibres {cd!r} s/m (channel {c})')
+            break
+        if abs(got['pmd'][c] - pmd) > 1e-9 * pmd:
+            res.fail(f'PMD quadrature: receiver sees {got["pmd"][c]!r} s, root of the sum of squares over the fibres, ROADMs '
+                     f'and amplifiers {pmd!r} s')
+            break
+        if abs(got['pdl'][c] - pdl) > 1e-9 * max(pdl, 1e-15):
+            res.fail(f'PDL quadrature: receiver sees {got["pdl"][c]!r} dB, expected {pdl!r} dB')
+            break
+    # ---- the same link given as explicit pre-cut spans
+    pre = []
+    for i, e in enumerate(line):
+        n = len(subs[f'f{i}'])
+        pre += [(f'f{i}x{j}', e['length'] / n, e['variety'], e['loss_coef'], e.get('pmd_coef')) for j in range(n)]
+    path2, si2 = _design_and_propagate(_line_topology(pre))
+    got2 = _acc(si2)
+    n1 = sum(isinstance(el, Fiber) for el in path)
+    n2 = sum(isinstance(el, Fiber) for el in path2)
+    if n1 != n2:
+        res.fail(f'pre-cut: the designed link has {n1} spans, the same link given as explicit spans {n2}')
+    for key in ('cd', 'pmd', 'pdl', 'latency'):
+        for c in (0, nch - 1):
+            x, y = got[key][c], got2[key][c]
+            if abs(x - y) > 1e-9 * max(abs(x), abs(y), 1e-30):
+                res.fail(f'pre-cut: {key} at the receiver is {x!r} with the long fibres cut by the design, {y!r} with the '
+                         f'same spans given explicitly')
+                break
+    res.nontrivial = nsplit > 0
+    res.stats.update({'kind_designed': 1, f'designed_fibres_{len(line)}': 1, 'designed_fibres_split': nsplit,
+                      'designed_spans_total': n1, 'designed_mixed_long_short': int(0 < nsplit < len(line)),
+                      'designed_own_pmd_coef': int(any('pmd_coef' in e for e in line)),
+                      'designed_max_spans_per_fibre': max(len(v) for v in subs.values())})
+    return res
+
+
 # ---- Raman on ---------------------------------------------------------------------------------------------------------
 
 NEPER_DB = 10 / math.log(10)     # 4.3429...
@@ -790,12 +939,31 @@ def _simplify_fibre(p, malformed=False):
 
 
 def shrink_candidates(case):
-    yield from _drop_channels(case)
+    if case['kind'] != 'designed':
+        yield from _drop_channels(case)
     if case['kind'] in ('span', 'malformed', 'raman'):
         for q in _simplify_fibre(case['fibre'], case['kind'] == 'malformed'):
             c = copy.deepcopy(case)
             c['fibre'] = q
             yield c
+    if case['kind'] == 'designed':
+        k = len(case['line'])
+        for i in range(k):
+            if k > 1:
+                c = copy.deepcopy(case)
+                del c['line'][i]
+                yield c
+        for i, e in enumerate(case['line']):
+            if 'pmd_coef' in e:
+                c = copy.deepcopy(case)
+                del c['line'][i]['pmd_coef']
+                yield c
+            for L in (151.0, 300.0, 80.0):
+                if e['length'] > L:
+                    c = copy.deepcopy(case)
+                    c['line'][i]['length'] = L
+                    yield c
+        return
     if case['kind'] == 'path':
         k = len(case['elements'])
         if k > 2:
